@@ -2428,9 +2428,11 @@ class Region(_IRNode):
                 prev_block = next_block
 
         except StopIteration:
-            # Repair last block
-            self._last_block = prev_block
             return
+        finally:
+            # Repair last block, also when a later block is rejected or the
+            # iterable raises: the blocks linked so far stay in the region.
+            self._last_block = prev_block
 
     def insert_block_before(
         self, block: Block | Iterable[Block], target: Block
@@ -2478,10 +2480,12 @@ class Region(_IRNode):
                 prev_block = next_block
 
         except StopIteration:
-            # Repair broken link
+            return
+        finally:
+            # Repair broken link, also when a later block is rejected or the
+            # iterable raises: the blocks linked so far stay before `target`.
             prev_block._next_block = target  # pyright: ignore[reportPrivateUsage]
             target._prev_block = prev_block  # pyright: ignore[reportPrivateUsage]
-            return
 
     def insert_block_after(self, block: Block | Iterable[Block], target: Block) -> None:
         """
